@@ -63,6 +63,8 @@ static void initOps(bool thorough) {
   E("eD2Covf", {"D2C", "", ""}, "1e999", "encode-int-divisor");
   E("eD2Cunf", {"D2C", "", ""}, "1e-999", "encode-int-divisor");
   E("eUCHd10", {"UCH", "10", ""}, "2.5", "encode-int-divisor");
+  // (definitions that share base type and divisor but differ in range are covered by part (d): every further
+  // derived cache key doubles the number of canonical states of the hashed search)
   E("eUINrng", {"UIN", "", "10-100"}, "50", "encode-int-range");
   // encode: float type
   E("eEXP", {"EXP", "", ""}, "1.5", "encode-float");
@@ -592,6 +594,154 @@ static void permutations(int nT, int nM, int part, int nparts) {
   } while (std::next_permutation(tp.begin(), tp.end()));
 }
 
+// ------------------------------------------------------------------------------------ (d) independence of definitions
+// Definitions that share a base type and divisor but differ in their configured range meet in the derived
+// type cache.  Every ordered selection of up to k of these lines is loaded in its own process; what each line's
+// message does (dump with min/max/step, encode of probe values, decode of probe bytes) must equal what it does
+// when it is the only line loaded.
+struct DefLine { const char* name; const char* type; const char* div; const char* range; const char* cls; vector<const char*> probes; };
+static const vector<DefLine>& defLines() {
+  static const vector<DefLine> L = {
+    {"u0", "UCH", "", "", "plain-nodivisor", {"5", "60", "150", "254"}},
+    {"u0a", "UCH", "", "10-100", "range-nodivisor", {"5", "60", "150", "254"}},
+    {"u0b", "UCH", "", "50-200", "range-nodivisor", {"5", "60", "150", "254"}},
+    {"ud", "UCH", "10", "", "plain-divisor", {"0.5", "6.0", "15.0", "25.4"}},
+    {"uda", "UCH", "10", "1-10", "range-divisor", {"0.5", "6.0", "15.0", "25.4"}},
+    {"udb", "UCH", "10", "5-20", "range-divisor", {"0.5", "6.0", "15.0", "25.4"}},
+    {"ur", "UCH", "-10", "", "plain-reciprocal", {"50", "600", "1500", "2540"}},
+    {"ura", "UCH", "-10", "100-1000", "range-reciprocal", {"50", "600", "1500", "2540"}},
+    {"urb", "UCH", "-10", "500-2000", "range-reciprocal", {"50", "600", "1500", "2540"}},
+    {"urc", "UCH", "-10", "20-200", "range-reciprocal", {"50", "150", "600", "2540"}},
+    {"sr", "SIN", "-100", "", "plain-reciprocal", {"-3000000", "-50000", "50000", "3000000"}},
+    {"sra", "SIN", "-100", "-100000-100000", "range-reciprocal", {"-3000000", "-50000", "50000", "3000000"}},
+    {"srb", "SIN", "-100", "-10000-10000", "range-reciprocal", {"-3000000", "-50000", "5000", "3000000"}},
+    {"sd", "SIN", "100", "-10-10", "range-divisor", {"-300.00", "-5.00", "5.00", "300.00"}},
+  };
+  return L;
+}
+static string defLineText(size_t i) {
+  const DefLine& d = defLines()[i];
+  char b[200];
+  snprintf(b, sizeof(b), "w,cir,%s,,,08,b509,0e%02x,v,,%s,%s,%s,,", d.name, (unsigned)(i + 1), d.type, d.div, d.range);
+  return b;
+}
+// loads the lines in this order (in this process) and returns one observation per loaded line
+static vector<string> loadLinesAndObserve(const vector<int>& order) {
+  vector<string> out;
+  errno = 0;
+  DataFieldTemplates* templates = new DataFieldTemplates();
+  MessageMap* map = new MessageMap(false, "", true);
+  PermResolver resolver(templates);
+  map->setResolver(&resolver);
+  string text = "type,circuit,name,comment,qq,zz,pbsb,id,*name,part,type,divisor/values,range,unit,comment\n", err;
+  for (int i : order) text += defLineText((size_t)i) + "\n";
+  std::istringstream ms(text);
+  result_t lr = map->readFromStream(&ms, "cfg.csv", 0, false, nullptr, &err);
+  for (int i : order) {
+    const DefLine& d = defLines()[(size_t)i];
+    std::ostringstream obs;
+    obs << "load:" << getResultCode(lr) << " " << err << "\n";
+    Message* msg = map->find("cir", d.name, "", true, false);
+    if (!msg) { obs << "missing\n"; out.push_back(obs.str()); continue; }
+    obs << "def:";
+    msg->dump(nullptr, true, OF_DEFINITION, &obs);
+    obs << "\njson:";
+    msg->dump(nullptr, true, OF_JSON | OF_DEFINITION | OF_ALL_ATTRS, &obs);
+    obs << "\n";
+    for (const char* pv : d.probes) {
+      MasterSymbolString pm;
+      std::istringstream in(pv);
+      result_t r = msg->prepareMaster(0, 0x31, SYN, UI_FIELD_SEPARATOR, &in, &pm);
+      obs << "encode " << pv << ":" << getResultCode(r) << " " << (r == RESULT_OK ? pm.getStr() : string()) << "\n";
+    }
+    bool two = string(d.type) == "SIN";
+    for (const char* hx : two ? vector<const char*>{"0500", "f401", "0cfe", "3075"} : vector<const char*>{"05", "3c", "96", "fe"}) {
+      MasterSymbolString m;
+      char hdr[32];
+      snprintf(hdr, sizeof(hdr), "3108b509%02x0e%02x", two ? 4 : 3, (unsigned)(i + 1));
+      m.parseHex(string(hdr) + hx);
+      SlaveSymbolString sl; sl.parseHex("00");
+      msg->storeLastData(m, sl);
+      std::ostringstream d1;
+      result_t r = msg->decodeLastData(pt_any, false, nullptr, -1, OF_NAMES, &d1);
+      obs << "decode " << hx << ":" << getResultCode(r) << " " << d1.str() << "\n";
+    }
+    out.push_back(obs.str());
+  }
+  return out;
+}
+static vector<string> observeLinesForked(const vector<int>& order) {
+  vector<string> res;
+  int fd[2];
+  if (pipe(fd) != 0) return res;
+  fflush(stdout);
+  pid_t pid = fork();
+  if (pid == 0) {
+    close(fd[0]);
+    vector<string> o = loadLinesAndObserve(order);
+    string all;
+    for (auto& x : o) all += hexs(x) + "\n";
+    size_t off = 0;
+    while (off < all.size()) { ssize_t w = write(fd[1], all.data() + off, all.size() - off); if (w <= 0) break; off += (size_t)w; }
+    _exit(0);
+  }
+  close(fd[1]);
+  string all;
+  char buf[65536];
+  ssize_t nr;
+  while ((nr = read(fd[0], buf, sizeof(buf))) > 0) all.append(buf, (size_t)nr);
+  close(fd[0]);
+  int st = 0;
+  waitpid(pid, &st, 0);
+  std::istringstream is(all);
+  string line;
+  while (std::getline(is, line)) res.push_back(unhexs(line));
+  if (!WIFEXITED(st) || WEXITSTATUS(st) != 0) res.clear();
+  R.transitions++;
+  return res;
+}
+static string orderStr(const vector<int>& o) { string s; for (size_t i = 0; i < o.size(); i++) { if (i) s += "."; s += std::to_string(o[i]); } return s; }
+static void definitionIndependence(int k, int part, int nparts) {
+  size_t N = defLines().size();
+  vector<string> alone(N);
+  for (size_t i = 0; i < N; i++) {
+    vector<string> o = observeLinesForked({(int)i});
+    if (o.size() != 1 || o[0].find("load:done") != 0 || o[0].find("missing") != string::npos) {
+      // a line that is refused on its own is refused deterministically: it takes no part in the selections
+      // (a refused line ends the load of a file, which is not a dependence between definitions)
+      if (part == 0) R.count("definition_lines_refused_alone");
+      continue;
+    }
+    if (part == 0) R.count("definition_lines_loaded_alone");
+    alone[i] = o[0];
+  }
+  if (part == 0) R.sample("definition independence: " + std::to_string(N) + " lines sharing base type/divisor with different ranges, every ordered selection of <= " + std::to_string(k) + ", e.g. alone " + defLineText(6) + " -> " + (alone[6].empty() ? string("refused") : alone[6].substr(alone[6].find("encode"), 120)));
+  uint64_t idx = 0;
+  vector<int> cur;
+  std::function<void()> rec = [&]() {
+    if (cur.size() >= 2 && (int)(idx++ % (uint64_t)nparts) == part && !R.expired()) {
+      vector<string> o = observeLinesForked(cur);
+      R.evaluations++; R.tracesValidated++;
+      R.distinct(vp::fnv("lines" + orderStr(cur)));
+      R.count("definition_selections");
+      for (size_t j = 0; j < cur.size(); j++) {
+        const string& got = j < o.size() ? o[j] : string("child failed");
+        if (got != alone[(size_t)cur[j]]) {
+          R.violation(string("C12/load-order/definition-depends-on-others/") + defLines()[(size_t)cur[j]].cls,
+                      "lines loaded in order [" + orderStr(cur) + "]: " + defLineText((size_t)cur[j]) + ": " + firstDiff(alone[(size_t)cur[j]], got),
+                      "k=lines;o=" + orderStr(cur) + ";x=" + std::to_string(cur[j]));
+        }
+      }
+    }
+    if ((int)cur.size() >= k) return;
+    for (size_t i = 0; i < N; i++) {
+      if (alone[i].empty() || std::find(cur.begin(), cur.end(), (int)i) != cur.end()) continue;
+      cur.push_back((int)i); rec(); cur.pop_back();
+    }
+  };
+  rec();
+}
+
 // ------------------------------------------------------------------------------------ replay
 static int replay(const string& c) {
   auto m = vp::parseCase(c);
@@ -604,6 +754,19 @@ static int replay(const string& c) {
     if (m["dump"] == "1") printf("%s\n", o.c_str());
     if (o == ref) { printf("observation identical to identity order (%zu bytes)\nOK\n", o.size()); return 0; }
     printf("%s\nVIOLATES\n", firstDiff(ref, o).c_str());
+    return 1;
+  }
+  if (m["k"] == "lines") {
+    vector<int> order;
+    { std::istringstream os(m["o"]); string t; while (std::getline(os, t, '.')) order.push_back(atoi(t.c_str())); }
+    int x = atoi(m["x"].c_str());
+    vector<string> a = observeLinesForked({x}), o = observeLinesForked(order);
+    printf("lines loaded in this order:\n");
+    for (int i : order) printf("  [%d] %s\n", i, defLineText((size_t)i).c_str());
+    size_t pos = std::find(order.begin(), order.end(), x) - order.begin();
+    if (a.size() != 1 || pos >= o.size()) { printf("child failed\nVIOLATES\n"); return 1; }
+    if (a[0] == o[pos]) { printf("line %d behaves as when loaded alone\nOK\n", x); return 0; }
+    printf("line %d: %s (first: loaded alone)\nVIOLATES\n", x, firstDiff(a[0], o[pos]).c_str());
     return 1;
   }
   vector<int> hist;
@@ -755,6 +918,9 @@ int main(int argc, char** argv) {
   // (c) load order
   int nT = (int)A.getInt("templates", thorough ? 4 : 3), nM = (int)A.getInt("messages", thorough ? 6 : 4);
   permutations(nT, nM, A.part, A.nparts);
+
+  // (d) independence of definitions that meet in the derived type cache
+  definitionIndependence((int)A.getInt("lines", thorough ? 4 : 3), A.part, A.nparts);
 
   R.note("states/transitions of the hashed search are reported by partition 0 only; the other partitions repeat it silently to validate the stateless enumeration against its visited set");
   R.write(A.out);
